@@ -20,5 +20,6 @@ func controlsC09() []Control {
 		{Name: "Setup returns early for an empty participant set", Expect: "R1", Mutate: replaceIn("(*openGameManager).Setup", "\tm.rg.Stop()\n", "\tif len(participants) == 0 {\n\t\treturn\n\t}\n\tm.rg.Stop()\n", 0)},
 		{Name: "reset keeps the previous participants and only clears their flags", Expect: "R1", Mutate: replaceIn("(*openGameManager).readyGroupResetParticipants", "m.state.Participants = map[string]*OpenGameParticipant{}", "for id := range m.state.Participants {\n\t\tm.state.Participants[id].IsReady = false\n\t}", 0)},
 		{Name: "add helper returns early for a known participant", Expect: "R1", Mutate: replaceIn("(*openGameManager).readyGroupAddParticipant", "\tm.state.Participants[participant.ID] = &OpenGameParticipant{", "\tif existing, exist := m.state.Participants[participant.ID]; exist {\n\t\texisting.IsReady = isReady\n\t\treturn\n\t}\n\tm.state.Participants[participant.ID] = &OpenGameParticipant{", 0)},
+		{Name: "completion resets the participants of the shared group after firing", Expect: "R3", Mutate: replaceIn("(*openGameManager).readyGroupOnCompleted", "\tm.onOpenGameReady(m.GetState())\n", "\tm.onOpenGameReady(m.GetState())\n\tm.rg.ResetParticipants()\n", 0)},
 	}
 }
